@@ -9,6 +9,16 @@ CLAIMS = {
    ref="§4 C05",
    note="Trusts go/ssa's CFG and go/types; assumes POSIX-like semantics of open/write listed in the evidence assumptions. Does not cover concurrent trim, GOCACHEPROG back ends, fsync/power loss.",
    technique="custom SSA path/guard analysis (must-pass-through-edge, value-origin slicing, who-may-call) over go/packages+go/ssa"),
+ "C09": dict(
+   text="Structural necessary conditions for atomic pattern bindings, decided on all paths of the matcher's SSA: every backtracking point is bracketed by push/pop (and merge on success), the parser's bit index reaches the returned Binding for both spellings, set/pop/merge keep State and the frame masks consistent (merge hands its mask to the enclosing frame), Parse refuses more names than the mask has bits, names are bound only on success. Not a proof that recalled subtrees are structurally equal on all trees.",
+   ref="§4 C09",
+   note="Trusts go/ssa; a failure that is passed unchanged to the caller is assumed to be handled by the caller's frame (which is itself checked). One exemption (Symbol.Match's alias loop) with its reason is in the checker.",
+   technique="custom SSA path analysis (dominating push, pop on every failing path) + forward/backward value-flow"),
+ "C20": dict(
+   text="Decides the wiring of version-restricted reporting: role of each Options field derived from report.Report's comparisons vs. the constructor that writes it; the -go flag's value-origin chain down to types.Config.GoVersion and the cache key; FileVersions enabled; and the complete decision table of code.StdlibVersion by abstract evaluation over all orderings it can distinguish (exhaustive for that function).",
+   ref="§4 C20",
+   note="Trusts go/version.Compare's documented meaning and go/types' FileVersions; does not decide what bounds individual checks pass.",
+   technique="SSA value-origin (def-use) analysis + finite abstract evaluation of a comparison-only function"),
 }
 
 NOT_APPLICABLE = {
